@@ -193,6 +193,32 @@ def run(chk):
                 ev = {"e": "MonoPair", "idA": a.id, "idB": bb.id, "A": a.flags, "B": bb.flags, "okA": outcome[a.id][0], "okB": outcome[bb.id][0],
                       "stackA": outcome[a.id][1], "stackB": outcome[bb.id][1], "script": a.script.hex()[:200], "sigver": a.sigver}
                 rec3.append((RecJob("MonoPair", ev), [ev]))
+    # (d) whole spends of every type through the real binary: valid under the standard set, so valid under the standard set minus any one flag
+    import gen_spend, concurrent.futures as cf
+    def spend_ok(args):
+        r = ptydrv.run_cli([exe] + args, stdin_tty=True)
+        return r["code"] == 0 and not r["signal"], (r["stdout"].split("\n")[:-1] if r["code"] == 0 else [r["stderr"][-120:]])
+    todo = []
+    for typ in gen_spend.TYPES:
+        c = gen_spend.SpendCase(rng, typ, "valid", 1, 0, 0)
+        txa = ["--tx=" + c.tx.hex(), "--txin=" + c.funding.hex()]
+        todo.append((typ, None, txa))
+        for f in STANDARD:
+            todo.append((typ, f, ["-f-" + f] + txa))
+    with cf.ThreadPoolExecutor(max_workers=16) as ex:
+        res = list(ex.map(lambda t: spend_ok(t[2]), todo))
+    base_ok = {t[0]: r for t, r in zip(todo, res) if t[1] is None}
+    for (typ, f, _), (ok, st) in zip(todo, res):
+        if f is None: continue
+        ev = {"e": "MonoPair", "idA": "spend:%s:-%s" % (typ, f), "idB": "spend:%s:standard" % typ, "A": [x for x in STANDARD if x != f], "B": list(STANDARD), "okA": ok,
+              "okB": base_ok[typ][0], "stackA": st, "stackB": base_ok[typ][1], "script": "", "sigver": typ}
+        rec3.append((RecJob("MonoPair", ev), [ev]))
+    # (a') the listing of the standard set does not depend on what else is on the command line
+    for k_, extra in enumerate((["-f-NULLDUMMY"], ["-f+SIGPUSHONLY"], ["-f-BOGUS"], ["-z"], ["-q"], ["-f-P2SH,-WITNESS"], ["-P0x01:0x02"])):
+        for order in (0, 1):
+            r = ptydrv.run_cli([exe] + (extra + ["-d"] if order else ["-d"] + extra))
+            fl = [l[2:] for l in r["stdout"].splitlines() if l.startswith("・ ")]
+            rec3.append((RecJob("DefaultFlags", {"e": "DefaultFlags", "flags": fl}), [{"e": "DefaultFlags", "flags": fl}]))
     divs += chk.validate_recorded("Trace_Calls", rec3, "c09pairs")
     chk.classify(divs)
     return chk.finish(rule=RULE, assumptions=ASSUME, extra={"flag_lists": nflag, "cli_probe_runs": len(rec2), "chain_runs": len(jobs), "mono_pairs": len(rec3)})
